@@ -1,6 +1,6 @@
 SPECIFICATION XSpec
 CONSTANTS
- MaxTokens = 4
+ MaxTokens = 5
  MaxCtx = 4
  MaxBuf = 3
  QKeySlashIsComment = FALSE
